@@ -1047,7 +1047,7 @@ func (e *compiledBracketExpr) emitUnary(prepare, body func(), postfix, putOnStac
 	if !putOnStack {
 		e.left.emitGetter(true)
 		e.member.emitGetter(true)
-		e.c.emit(dupLast(2), getElem)
+		e.c.emit(_toElemKey{}, dupLast(2), getElem)
 		body()
 		e.addSrcMap()
 		if e.c.scope.strict {
@@ -1059,7 +1059,7 @@ func (e *compiledBracketExpr) emitUnary(prepare, body func(), postfix, putOnStac
 		if !postfix {
 			e.left.emitGetter(true)
 			e.member.emitGetter(true)
-			e.c.emit(dupLast(2), getElem)
+			e.c.emit(_toElemKey{}, dupLast(2), getElem)
 			if prepare != nil {
 				prepare()
 			}
@@ -1074,7 +1074,7 @@ func (e *compiledBracketExpr) emitUnary(prepare, body func(), postfix, putOnStac
 			e.c.emit(loadUndef)
 			e.left.emitGetter(true)
 			e.member.emitGetter(true)
-			e.c.emit(dupLast(2), getElem)
+			e.c.emit(_toElemKey{}, dupLast(2), getElem)
 			if prepare != nil {
 				prepare()
 			}
